@@ -9,3 +9,8 @@ claim("C02", "proof",
       "All paths of one emulate step with symbolic skip/halted/IFF/mode/NMI/INT are classified and checked (guard, NMI-first, IFF effects, HALT release, pushed PC, vector provenance); pending-prefix => skip_interrupt over all 1792 encodings; 768 pending-prefix sibling comparisons; HALT and RETN/RETI post-states.",
       "Trusted: rustc MIR building, mirfacts, zxwalk. Not decided: when the machine asserts INT (C05).",
       "DESIGN.md §3 C02")
+claim("C01", "other",
+      "abstract interpretation of MIR per opcode (SCCP) + evaluated-constant tables + sibling comparison + bit provenance",
+      "Clause-limited: decode totality of all 1792 encodings (no reachable panic), flag lookup tables equal arithmetic closed forms, DD/FD in front of non-HL opcodes is a timing-only prefix (sibling comparison of traces and final states), undefined ED = NOP, MEMPTR provenance for LD (rr|nn),A / OUT (n),A.",
+      "Not decided: arithmetic results and affected-flag values of ALU/rotate/block instructions (value-level) unless the exact-semantics clause (D6) is armed. Trusted: rustc MIR, mirfacts, zxwalk, term equivalence by truth table over extracted closed forms.",
+      "DESIGN.md §3 C01")
